@@ -5,3 +5,10 @@ import RaftWal.Props.C02
 #print axioms RaftWal.C02.recovery_leaves_clean_region
 #print axioms RaftWal.C02.append_all_or_nothing_any_crash
 #print axioms RaftWal.C02.recovered_log_before_or_after
+#print axioms RaftWal.C02.chain_atomic
+#print axioms RaftWal.C02.chain_atomic_any_size
+#print axioms RaftWal.C02.torn_step_any_state
+#print axioms RaftWal.C02.chain_atomic_rec
+#print axioms RaftWal.C02.chain_atomic_rec_any_size
+#print axioms RaftWal.C02.byte_level_refines_protocol_file
+#print axioms RaftWal.C02.protocol_outcomes_realised_at_byte_level
